@@ -44,7 +44,7 @@ PROPS["C09"] = dict(
                       "string_pairs_sharing_prefix": 10, "seq_pairs_cross_kind": 10,
                       "seq_pairs_different_length": 10, "tree_pairs": 10, "boundary_keys_looked_up": 1,
                       "type_pairs_one_name_a_prefix_of_the_other": 40, "type_triples_with_related_names": 1000,
-                      "tuple_slots_holding_an_object_shared_with_other_tuples": 1000}},
+                      "tuple_slots_holding_an_object_shared_with_other_tuples": 1000, "word_sized_struct_pairs_differing_in_two_or_more_bytes": 500}},
     rule="case = 40 Int, 30 Float, 30 String, 20 plain-struct, 8 sequence and 6 Tree pairs+triples drawn from "
          "boundary-biased generators; distinct = hash of the first values of each kind; non-trivial = contains an "
          "Int pair whose difference does not fit in 32 bits",
@@ -348,7 +348,7 @@ PROPS["C12"] = dict(
     quick=[("asan", 16, 40), ("plain", 8, 40)],
     thorough=[("asan", 16, 1500), ("plain", 16, 4000), ("memcheck", 8, 3, {"budget": 900})],
     floors={"quick": {"empty_after_resize_0": 20, "failures_handled_inside_an_enclosing_try": 100, "iterations_with_a_refused_get_in_the_body": 20, "empty_after_draining": 20, "distinct_faults_in_table": 300, "sequence_objects_faulted": 100, "map_objects_faulted": 100,
-                      "string_objects_faulted": 50, "range_objects_faulted": 50, "scalar_objects_faulted": 1, "fixed_storage_tuples_faulted": 100, "stack_strings_faulted": 100}},
+                      "string_objects_faulted": 50, "range_objects_faulted": 50, "scalar_objects_faulted": 1, "fixed_storage_tuples_faulted": 100, "stack_strings_faulted": 100, "absorbable_wrong_types_offered_to_an_empty_map": 50}},
     exhaustive=False,
     rule="evaluation = one fault (object kind, operation, invalid argument, size) executed with all oracles; the "
          "fixed table is run completely by shard 0, generated cases repeat it at random sizes/contents; distinct = "
@@ -370,7 +370,7 @@ PROPS["C10"] = dict(
                "MurmurHash is not required - the statement asks for a function of the value.",
     quick=[("asan", 16, 150), ("plain", 8, 150)],
     thorough=[("asan", 16, 6000), ("plain", 16, 20000), ("memcheck", 8, 7, {"budget": 900})],
-    floors={"quick": {"sequences_cut_back_with_resize": 300, "lists_grown_with_resize": 100, "sized_map_history_groups": 1000, "sized_map_histories_value_wider_than_key": 200, "blob_swaps_size_not_multiple_of_8": 1000, "blob_array_sorts": 1000, "allocation_class_groups": 500, "signed_zero_pairs": 100, "cross_kind_equal_pairs": 2000,
+    floors={"quick": {"assigns_onto_a_longer_tuple": 100, "cross_kind_sequence_assigns": 100, "sequences_cut_back_with_resize": 300, "lists_grown_with_resize": 100, "sized_map_history_groups": 1000, "sized_map_histories_value_wider_than_key": 200, "blob_swaps_size_not_multiple_of_8": 1000, "blob_array_sorts": 1000, "allocation_class_groups": 500, "signed_zero_pairs": 100, "cross_kind_equal_pairs": 2000,
                       "sequence_history_groups": 500, "map_history_groups": 1000, "swaps": 2000,
                       "hash_data_alignment_sweeps": 500, "table_eq_reproducer_runs": 1}},
     rule="case = one group of scalar allocation classes, six equal sequences, two times three equal maps, a hash_data "
@@ -480,7 +480,7 @@ PROPS["C13"] = dict(
     timeout={"quick": 900, "thorough": 5400},
     floors={"quick": {"digests_compared_with_solo_run": 100, "mutex_sections": 10000,
                       "mutex_handovers_between_threads": 1000, "trylock_sections_that_had_to_wait": 10,
-                      "join_publish_threads": 100, "root_results_received_after_join": 100, "threads_started_with_a_heap_argument_collection": 50, "cloned_thread_trials": 20, "cold_first_lookup_rounds": 400,
+                      "join_publish_threads": 100, "root_results_received_after_join": 100, "threads_started_with_a_heap_argument_collection": 50, "threads_given_an_initial_thread_local_value": 100, "cloned_thread_trials": 20, "cold_first_lookup_rounds": 400,
                       "mutex_phases_started_with_cold_lookups": 20}},
     rule="case = one trial: N threads (2..16) each run a seeded workload alone and then together, then 50-200 "
          "Mutex sections each, then a join-publish round; distinct = hash including the observed lock acquisition "
